@@ -34,6 +34,9 @@ TRUSTED = [
     'hand-written from the XPath 1.0 recommendation; they are compared with each other on every run',
     'not modelled: the `re` engine (tokenizer regex re-implemented by hand; matches() is `unmodelled`), expat '
     '(documents are built as event lists)',
+    'the printer Genshi/Model/PathPrint.lean is proved against the parser MODEL (parse_print, parse_print_abbrev); '
+    'that the real PathParser reads printed text the same way is the print / printa correspondence (the AST printed '
+    'is the model parse of a generated text, so only ASTs that some generated text denotes are exercised)',
 ]
 ASSUMPTIONS = [
     'streams are the events of one element tree (what the XML parser delivers for a document), possibly with '
@@ -518,7 +521,7 @@ def check_model_only(cases, res):
 # the printer (lean/Genshi/Model/PathPrint.lean) and the tokenizer: printed text vs the real parser
 
 PRINT_ATOMS = ['@n', '@m', '@x:n', '@*', '@x:*', 'b', 'x:b', 'x:*', '*', '$s', '$n', '"abc"', "'a b'", '""', '"it\'s"',
-               "'say \"hi\"'", '1', '2', '02', '1.50', '.5', '0.05', '10', 'true()', 'false()', 'name()', 'local-name()',
+               "'say \"hi\"'", 'a*b', '-1', 'b-c', '@a*', '1', '2', '02', '1.50', '.5', '0.05', '10', 'true()', 'false()', 'name()', 'local-name()',
                'namespace-uri()']
 PRINT_FN = [('boolean', 1), ('ceiling', 1), ('floor', 1), ('normalize-space', 1), ('not', 1), ('number', 1),
             ('round', 1), ('string-length', 1), ('contains', 2), ('starts-with', 2), ('substring-after', 2),
